@@ -47,6 +47,13 @@ def run_native(script, args, timeout=600, python=VENV_PY):
                 break
             except ValueError:
                 pass
+    if data is None:
+        try:
+            os.makedirs(os.path.join(VERIF, "evidence", "replays"), exist_ok=True)
+            with open(os.path.join(VERIF, "evidence", "replays", "last_native_raw.txt"), "w") as fh:
+                fh.write("cmd: %s %s\nrc: %s\n--- stdout\n%s\n--- stderr\n%s" % (script, args, out.returncode, out.stdout[-20000:], out.stderr[-20000:]))
+        except OSError:
+            pass
     return out.returncode, data, (out.stdout[-4000:] + out.stderr[-4000:])
 
 
